@@ -2,7 +2,7 @@
    [Req] is the set of requests the entries make the compiler issue (splitter nodes and resolver
    targets, through routes, splits and failover).  When assembleChain succeeds every requested
    splitter was built and every requested target's redirect walk ends; hence a redirect cycle
-   under a requested target, or a cycle of splits under a requested splitter, makes compile fail. *)
+   under a requested target, or a cycle of splits under a requested splitter, makes compile_ord fail. *)
 From Verif Require Import Base.Prelude.
 From Verif Require Import Chain.Model.
 From Verif Require Import Chain.Lemmas.
@@ -117,12 +117,12 @@ Section Cycles.
   (* ---- redirect cycles ---- *)
 
   (* a requested target (route, split or failover target) whose redirect walk never ends makes
-     compile fail *)
+     compile_ord fail *)
   Theorem redirect_cycle_reported ords t :
-    Req (QTarget t) \/ Req (QFail t) -> cyclic es cx t -> exists e, compile es cx svc ords = Err e.
+    Req (QTarget t) \/ Req (QFail t) -> cyclic es cx t -> exists e, compile_ord es cx svc ords = Err e.
   Proof.
-    intros Hq Hc. destruct (compile es cx svc ords) as [g|e] eqn:E; [|eauto]. exfalso.
-    unfold compile in E. destruct (assemble es cx svc) as [[[st start] router]|e] eqn:Ea; [|discriminate].
+    intros Hq Hc. destruct (compile_ord es cx svc ords) as [g|e] eqn:E; [|eauto]. exfalso.
+    unfold compile_ord in E. destruct (assemble es cx svc) as [[[st start] router]|e] eqn:Ea; [|discriminate].
     assert (Ho : exists t', Orb t t').
     { destruct Hq as [Hq|Hq]; apply (requests_served _ _ _ Ea) in Hq; cbn [served] in Hq.
       - destruct Hq as (t' & Ho & _). eauto.
@@ -172,11 +172,11 @@ Section Cycles.
   Qed.
 
   (* a requested splitter that splits (through any number of splitters) back to itself makes
-     compile fail — with the circular-reference error when the rest of the chain assembles *)
+     compile_ord fail — with the circular-reference error when the rest of the chain assembles *)
   Theorem reference_cycle_reported ords a :
     Req (QSplit a) -> SplitPath a a ->
-    (exists e, assemble es cx svc = Err e /\ compile es cx svc ords = Err e) \/
-    compile es cx svc ords = Err ECircularReference.
+    (exists e, assemble es cx svc = Err e /\ compile_ord es cx svc ords = Err e) \/
+    compile_ord es cx svc ords = Err ECircularReference.
   Proof.
     intros Hq Hp. destruct (assemble es cx svc) as [[[st start] router]|e] eqn:Ea.
     - right. destruct (assemble_spec es cx svc _ _ _ Ea) as (_ & _ & Hreach & _).
@@ -190,7 +190,7 @@ Section Cycles.
       + assert (Hqb : Req (QSplit b)) by (eapply splits_to_req; eauto).
         destruct (split_path_reach _ _ _ _ _ Ea Hqb Hbc) as [Hr _].
         eapply compile_reference_cycle; [exact Ea | apply Hreach; exact Hm | eapply splits_to_edge; eauto | exact Hr].
-    - left. exists e. split; [reflexivity|]. unfold compile. rewrite Ea. reflexivity.
+    - left. exists e. split; [reflexivity|]. unfold compile_ord. rewrite Ea. reflexivity.
   Qed.
 
   (* every edge between splitter nodes of the assembled table comes from an eligible split *)
